@@ -639,6 +639,7 @@ func (k *checker) checkCapabilities() {
 	c := k.c
 	rows := capabilityTable()
 	judged, unjudged := 0, 0
+	v1cells := 0
 	var unjudgedList []string
 	covered := map[string]bool{} // "Pred/arg" rows present
 	for _, r := range rows {
@@ -667,6 +668,21 @@ func (k *checker) checkCapabilities() {
 			}
 		}
 		c.Count("capability_calls_all_256_versions", 256)
+		// native_protocol_v1.spec is one of the repository's specifications too, and its QUERY has no <flags>
+		// at all (§4.1.4: "The body of the message consists of a CQL query as a [long string] followed by the
+		// [consistency] for the operation"): no query flag exists in version 1.
+		if r.Pred == "SupportsQueryFlag" {
+			c.Distinct(fmt.Sprintf("cap/%s/%s/v1", r.Pred, r.Arg))
+			if g := got[1]; g != nil {
+				v1cells++
+				if g != false {
+					k.viol(capKey(r.Pred, r.Arg, "v1"), map[string]interface{}{
+						"predicate": name, "version": "v1", "version_byte": "0x01", "spec_says": false, "library_says": g,
+						"spec": "v1 §4.1.4 QUERY: 'a CQL query as a [long string] followed by the [consistency]' — no flags byte",
+					})
+				}
+			}
+		}
 		for i, v := range specVersions {
 			sig := fmt.Sprintf("cap/%s/%s/%s", r.Pred, r.Arg, specVersionNames[i])
 			c.Distinct(sig)
@@ -697,6 +713,7 @@ func (k *checker) checkCapabilities() {
 			}
 		}
 	}
+	c.Set("capability_table_v1_query_flag_cells_judged", v1cells)
 	c.Set("capability_table", map[string]interface{}{
 		"rows": len(rows), "cells": len(rows) * len(specVersions), "cells_judged": judged, "cells_unjudged": unjudged,
 		"unjudged": unjudgedList, "versions": specVersionNames,
